@@ -15,7 +15,7 @@ RULE = (
     "lengths (incl. length 0 or 1 against n) must raise for every combination; Array.FromScalars(scalars)[i] is "
     "scalars[i] re-expressed in the array's unit (db float conversion, 1e-12*S) with mixed units/categories, also "
     "with unit=/category= given; Array.GetValues(unit)[i] == Scalar(a_i).GetValue(unit) for every container kind; where the Scalar conversion is not a number (a unit of another quantity type is rejected, the Unknown quantity returns the amount unchanged) every container kind does the same; a plain number as the other operand (either side, + - * / //) gives element by element what the Scalars give; all of it also on the simple length/time filler whose units are formula strings. "
-    "Array operations and conversions made while a project database is current give what the Scalars gave while their own database was current; products and quotients also over units with an offset. Non-trivial = length >= 2 and (containers differ or units differ); key = (containers, op, length, quantities)."
+    "Array operations and conversions made while a project database is current give what the Scalars gave while their own database was current; products and quotients also over units with an offset. A derived operand and the simple quantity of the table unit that reads the same (m*m against area m2, m/s, kg/m3): whether the sum is accepted does not depend on the container kinds. Non-trivial = length >= 2 and (containers differ or units differ); key = (containers, op, length, quantities)."
 )
 ASSUMPTIONS = [
     "one-dimensional containers of finite floats; right operands non-zero for / and //",
@@ -295,6 +295,41 @@ class Checker:
         if vals:
             ctx.nontrivial(("number", op, case["side"], len(vals), repr(sorted(case["q"]["d"].items()))))
 
+    # -- whether a sum is accepted at all does not depend on the container kind -------------------------------------
+    def check_sum_outcome(self, case):
+        """case: sum_outcome=True, unit (a table unit that reads like a composition: m2, m/s, kg/m3), comp ([(category,
+        unit, exp)] composing it), va, vb, op.  One operand is derived by arithmetic, the other is the simple quantity
+        of the table unit: the two read the same ('m2') and are different quantities.  Whatever the Scalars do with
+        a + b (they refuse), every container kind does too."""
+        from collections import OrderedDict
+
+        from barril.units import Array, Quantity, Scalar
+
+        ctx = self.ctx
+        va, vb, op = list(case["va"]), list(case["vb"]), case["op"]
+        qd = Quantity.CreateDerived(OrderedDict((c, [u, e]) for c, u, e in case["comp"]))
+        qs = Scalar(1.0, case["unit"]).GetQuantity()
+
+        def outcome(fn):
+            try:
+                r = fn()
+            except Exception as e:
+                if core.tree_frame(e) is None and not isinstance(e, TypeError):
+                    raise
+                return "raises"
+            return "returns"
+
+        for first, second, tag in ((qd, qs, "derived_first"), (qs, qd, "simple_first")):
+            ref = outcome(lambda: _apply(op, Scalar.CreateWithQuantity(first, va[0]), Scalar.CreateWithQuantity(second, vb[0])))
+            for ka in KINDS:
+                for kb in KINDS:
+                    ctx.ev()
+                    got = outcome(lambda: _apply(op, Array.CreateWithQuantity(first, gen.as_container(ka, va)), Array.CreateWithQuantity(second, gen.as_container(kb, vb))))
+                    if got != ref:
+                        ctx.fail("sum_accepted_or_refused_depending_on_the_container:%s" % tag, dict(case, ka=ka, kb=kb), "%r %s %r: the Scalars: %s, Array(%s) with Array(%s): %s" % (first, op, second, ref, ka, kb, got))
+        ctx.cls("sum_outcome_checked")
+        ctx.nontrivial(("sum_outcome", case["unit"], op))
+
     # -- the operands' own database decides, not the one that happens to be current --------------------------------
     def check_other_database_current(self, case):
         """case: other_db=True, ua, ub, va, vb, op.  Arrays and Scalars of this database are operated on while a
@@ -486,7 +521,24 @@ def _strategies(ch):
         n = draw(st.integers(0, 3))
         return {"other_db": True, "ua": ua, "ub": ub, "op": op, "va": draw(vals(n)), "vb": draw(vals(n))}
 
-    return op_case(), len_case(), fs_case(), gv_case(), outcome_case(), number_case(), other_db_case()
+    families = [
+        ("m2", [("length", "m", 2)]),
+        ("m2", [("length", "m", 1), ("depth", "m", 1)]),
+        ("m3", [("length", "m", 3)]),
+        ("m/s", [("length", "m", 1), ("time", "s", -1)]),
+        ("kg/m3", [("mass", "kg", 1), ("length", "m", -3)]),
+        ("ft2", [("length", "ft", 2)]),
+        ("1/s", [("time", "s", -1)]),
+    ]
+    families = [f for f in families if f[0] in db.unit_to_unit_info and all(db.IsValidCategory(c) for c, _u, _e in f[1])]
+
+    @st.composite
+    def sum_outcome_case(draw):
+        unit, comp = draw(st.sampled_from(families))
+        n = draw(st.integers(1, 3))
+        return {"sum_outcome": True, "unit": unit, "comp": [list(t) for t in comp], "va": draw(vals(n)), "vb": draw(vals(n)), "op": draw(st.sampled_from(["+", "-"]))}
+
+    return op_case(), len_case(), fs_case(), gv_case(), outcome_case(), number_case(), other_db_case(), (sum_outcome_case() if families else None)
 
 
 def _fix(case):
@@ -506,7 +558,7 @@ def run_shard(spec, ctx):
         ch = Checker(ctx, db)
         if kind != "posc":
             ctx.cls("shard_on_%s_database" % kind)
-        op_case, len_case, fs_case, gv_case, outcome_case, number_case, other_db_case = _strategies(ch)
+        op_case, len_case, fs_case, gv_case, outcome_case, number_case, other_db_case, sum_outcome_case = _strategies(ch)
         seed = spec["seed"] * 1000 + spec["shard"]
         n = spec["n"]
 
@@ -528,6 +580,8 @@ def run_shard(spec, ctx):
         core.hunt(ctx, mk(number_case, ch.check_number_operand), seed + 5, max(100, n // 3))
         if kind == "posc":
             core.hunt(ctx, mk(other_db_case, ch.check_other_database_current), seed + 6, max(60, n // 6))
+        if sum_outcome_case is not None:
+            core.hunt(ctx, mk(sum_outcome_case, ch.check_sum_outcome), seed + 7, max(40, n // 12))
 
 
 def replay(case, ctx):
@@ -535,7 +589,9 @@ def replay(case, ctx):
     with env.pushed(db):
         ch = Checker(ctx, db)
         case = _fix(case)
-        if case.get("other_db"):
+        if case.get("sum_outcome"):
+            fn = ch.check_sum_outcome
+        elif case.get("other_db"):
             fn = ch.check_other_database_current
         elif case.get("number"):
             fn = ch.check_number_operand
